@@ -7,7 +7,7 @@ identities the C++ solvers assert) over the reals with the angle normalisation m
 interpolation at t drives the truncated word of total length t*L [AF + EX].
 
 Correspondence (differential): real DubinsStateSpace (harness/dubins.cpp, libompl from the current
-tree, asserts enabled) vs the Lean model (drv_dubins) in lock step: word type + the three lengths,
+tree, built with NDEBUG so the solvers' asserts are compiled out) vs the Lean model (drv_dubins) in lock step: word type + the three lengths,
 distance, interpolate, the stored path and its end pose; bit-exact first, 1e-9 relative logged as drift.
 
 Spec oracle on the implementation's outputs (independent Python integration of the vehicle model):
@@ -278,8 +278,8 @@ def lines_close(a, b, rel=1e-9):
 
 # ------------------------------------------------------------------------------ running with abort recovery
 def run_resilient(ck, binary, script):
-    """run the harness; libompl's asserts abort the process: record the aborting op and continue with
-    the rest.  Returns (output lines aligned with script[1:], list of (op index, stderr tail))."""
+    """run the harness; if the process dies (sanitizer report, assert of inline header code) record the
+    aborting op and continue with the rest.  Returns (output lines aligned with script[1:], list of (op index, stderr tail))."""
     out = []
     aborts = []
     todo = list(script[1:])
@@ -330,9 +330,10 @@ def dubins_job(ck_seed, hbin, drv, rho, sym, npairs, nts, tag, run_bin, pairs=No
         pairs = [gen_pair(r, rho, box) for _ in range(npairs)]
     script = [hdr]
     meta = []
-    for i, (cls, s1, s2) in enumerate(pairs):
+    for i, pr in enumerate(pairs):
+        cls, s1, s2 = pr[:3]
         a, b = pose_tokens(s1), pose_tokens(s2)
-        ts = gen_ts(r, nts)
+        ts = list(pr[3]) if len(pr) > 3 else gen_ts(r, nts)
         for op, arg in [("path", a + " " + b), ("dist", a + " " + b), ("endp", a + " " + b), ("path", b + " " + a),
                         ("dist", b + " " + a)]:
             script.append(op + " " + arg)
@@ -354,7 +355,7 @@ def oracle_dubins(job, impl, counters, fails):
         per.setdefault(i, []).append((op, t, impl[k] if k < len(impl) else "<missing>", k))
     mids = []
     for i, ops in per.items():
-        cls, s1, s2 = pairs[i]
+        cls, s1, s2 = pairs[i][:3]
         d, al, be = normalise(rho, s1, s2)
         straight = math.hypot(s2[0] - s1[0], s2[1] - s1[1])
         longp = is_long(d, al, be)
@@ -406,7 +407,10 @@ def oracle_dubins(job, impl, counters, fails):
         if cands:
             best = min(sum(v) for v in cands.values())
             bw = min(cands, key=lambda x: sum(cands[x]))
-            if L > best * (1 + 1e-6) + 1e-9:
+            if L > best + 1e-9 * (1 + best):
+                counters["suboptimal_beyond_1e-9(float32 switching functions)"] += 1
+                counters["max_suboptimality_x1e9"] = max(counters["max_suboptimality_x1e9"], int((L - best) * 1e9))
+            if L > best + EPS * (1 + best):
                 rec("not-minimal", "%s branch returned %s of length %.9g but %s has %.9g (excess %.3g)" %
                     ("classification" if longp else "exhaustive", w, L, bw, best, L - best), path[1])
                 counters["not_minimal"] += 1
@@ -485,7 +489,7 @@ def phase2_script(job, mids):
 def oracle_prefix(job, mids, impl2, counters, fails):
     rho, sym = job["rho"], job["sym"]
     for (i, t, mid, D), o in zip(mids, impl2):
-        cls, s1, s2 = job["pairs"][i]
+        cls, s1, s2 = job["pairs"][i][:3]
         tol = rho * 4 * EPS * (1 + D / rho)
         rec = lambda what: fails.append(dict(space="Dubins-sym" if sym else "Dubins", clause="prefix", input_class=cls, what=what, pair=i,
                                              rho=rho, s1=s1, s2=s2, t=t, mid=mid, D=D, tol=tol))
@@ -557,7 +561,10 @@ def oracle_dab(cases, impl, counters, fails):
         if cands:
             best = min(sum(v) for v in cands.values())
             bw = min(cands, key=lambda x: sum(cands[x]))
-            if L > best * (1 + 1e-6) + 1e-9:
+            if L > best + 1e-9 * (1 + best):
+                counters["suboptimal_beyond_1e-9(float32 switching functions)"] += 1
+                counters["max_suboptimality_x1e9"] = max(counters["max_suboptimality_x1e9"], int((L - best) * 1e9))
+            if L > best + EPS * (1 + best):
                 rec("not-minimal", "dubins(%.17g, %.17g, %.17g): %s branch returned %s of length %.9g but %s has %.9g (excess %.3g)" %
                     (d, a, b, "classification" if longp else "exhaustive", w, L, bw, best, L - best))
                 counters["not_minimal"] += 1
@@ -565,19 +572,21 @@ def oracle_dab(cases, impl, counters, fails):
 
 
 # ------------------------------------------------------------------------------ Reeds-Shepp (implementation only)
-def rs_job(seed, rho, npairs, nts, tag):
+def rs_job(seed, rho, npairs, nts, tag, pairs=None):
     r = core.SplitMix64(seed).fork(tag)
     box = r.choice([1.0, 10.0]) * max(rho, 0.5)
     hdr = "rs rho=%s lo=%s hi=%s" % (B(rho), B(-box * 40), B(box * 40))
-    pairs = [gen_pair(r, rho, box) for _ in range(npairs)]
+    if pairs is None:
+        pairs = [gen_pair(r, rho, box) for _ in range(npairs)]
     script = [hdr]
     meta = []
-    for i, (cls, s1, s2) in enumerate(pairs):
+    for i, pr in enumerate(pairs):
+        cls, s1, s2 = pr[:3]
         a, b = pose_tokens(s1), pose_tokens(s2)
         for op in ("rspath", "rsend", "both"):
             script.append("%s %s %s" % (op, a, b))
             meta.append((i, op, None))
-        for t in gen_ts(r, nts):
+        for t in (list(pr[3]) if len(pr) > 3 else gen_ts(r, nts)):
             script.append("rsinterp %s %s %s" % (a, b, B(t)))
             meta.append((i, "rsinterp", t))
     return dict(hdr=hdr, pairs=pairs, script=script, meta=meta, rho=rho, tag=tag)
@@ -595,7 +604,7 @@ def oracle_rs(job, impl, counters, fails):
         per.setdefault(i, []).append((op, t, impl[k] if k < len(impl) else "<missing>", k))
     mids = []
     for i, ops in per.items():
-        cls, s1, s2 = pairs[i]
+        cls, s1, s2 = pairs[i][:3]
         rec = lambda clause, what, k=None: fails.append(dict(space="ReedsShepp", clause=clause, input_class=cls, what=what, pair=i, line=k,
                                                              rho=rho, s1=s1, s2=s2))
         straight = math.hypot(s2[0] - s1[0], s2[1] - s1[1])
@@ -661,22 +670,31 @@ def rs_phase2(job, mids):
 
 
 def oracle_rs_prefix(job, mids, impl2, counters, fails):
+    """prefix proportionality and symmetry at the implementation's own interpolated poses"""
     rho = job["rho"]
     for (i, t, mid, D), o in zip(mids, impl2):
-        cls, s1, s2 = job["pairs"][i]
+        cls, s1, s2 = job["pairs"][i][:3]
         if not o.startswith("rs="):
             fails.append(dict(space="ReedsShepp", clause="abort", input_class=cls, what="prefix distance: %s" % o, pair=i, rho=rho, s1=s1, s2=s2))
             continue
-        dm = F(o.split()[0][3:])
-        tol = rho * 4 * EPS * (1 + D / rho)
+        kv = dict(x.split("=") for x in o.split())
+        dm, dmr = F(kv["rs"]), F(kv["rsrev"])
+        # the Reeds-Shepp distance is continuous but only Hoelder-1/2 in the lateral offset: a pose error e costs up to
+        # ~4*sqrt(e); RS_EPS-scaled tolerance
+        tol = rho * 10 * EPS * (1 + D / rho)
         counters["rs_prefix_checked"] += 1
+        base = dict(space="ReedsShepp", input_class=cls, pair=i, rho=rho, s1=s1, s2=s2, t=t, mid=mid, D=D, tol=tol)
         if dm > t * D + tol:
-            fails.append(dict(space="ReedsShepp", clause="prefix", input_class=cls, pair=i, rho=rho, s1=s1, s2=s2, t=t, mid=mid, D=D, tol=tol,
+            fails.append(dict(base, clause="prefix", kind="prefix",
                               what="distance(s1, interpolate(t=%.6g)) = %.9g > t*distance = %.9g (excess %.3g)" % (t, dm, t * D, dm - t * D)))
         elif dm < t * D - tol:
-            fails.append(dict(space="ReedsShepp", clause="prefix", input_class=cls, pair=i, rho=rho, s1=s1, s2=s2, t=t, mid=mid, D=D, tol=tol,
+            fails.append(dict(base, clause="prefix", kind="prefix",
                               what="distance(s1, interpolate(t=%.6g)) = %.9g < t*distance = %.9g: the reported curve was not shortest (by %.3g)" %
                                    (t, dm, t * D, t * D - dm)))
+        if abs(dm - dmr) > tol:
+            fails.append(dict(base, clause="symmetry", kind="symmetry",
+                              what="at m = interpolate(s1,s2,t=%.6g): distance(s1,m) = %.9g but distance(m,s1) = %.9g (diff %.3g)" %
+                                   (t, dm, dmr, abs(dm - dmr))))
 
 
 # ------------------------------------------------------------------------------ diagnosis of prefix failures
@@ -710,7 +728,14 @@ def diagnose_prefix(ck, hbin, job, pf, rs):
         except Exception:
             continue
         f = pf[n]
-        if abs(v - f["t"] * f["D"]) <= f["tol"] + 4 * job["rho"] * e:
+        if f.get("kind") == "symmetry":
+            try:
+                vr = F(o.split()[1].split("=")[1])
+            except Exception:
+                continue
+            if abs(v - vr) <= f["tol"] + 4 * job["rho"] * e:
+                ok.add(n)
+        elif abs(v - f["t"] * f["D"]) <= f["tol"] + 4 * job["rho"] * e:
             ok.add(n)
     for n, f in enumerate(pf):
         f["cause"] = "on-discontinuity" if n in ok else "persistent"
@@ -719,13 +744,28 @@ def diagnose_prefix(ck, hbin, job, pf, rs):
 
 # ------------------------------------------------------------------------------ the check
 def corpus():
+    """corpus/C14/*.jsonl: one case per line,
+       {"space": "Dubins"|"Dubins-sym"|"ReedsShepp", "rho": r, "cls": c, "s1": [x,y,yaw], "s2": [...], "ts": [...]}  or
+       {"space": "dab", "d": d, "alpha": a, "beta": b}.
+    Returns (pose-pair cases grouped by (space, rho), dab cases)."""
+    import json
     d = os.path.join(core.VERIF, "corpus", "C14")
-    out = []
+    groups, dabs = {}, []
     if os.path.isdir(d):
         for f in sorted(os.listdir(d)):
-            if f.endswith(".txt"):
-                out.append((f, [l.rstrip("\n") for l in open(os.path.join(d, f)) if l.strip() and not l.startswith("#")]))
-    return out
+            if not f.endswith(".jsonl"):
+                continue
+            for line in open(os.path.join(d, f)):
+                line = line.strip()
+                if not line or line.startswith("#"):
+                    continue
+                c = json.loads(line)
+                if c["space"] == "dab":
+                    dabs.append((float(c["d"]), float(c["alpha"]), float(c["beta"])))
+                else:
+                    groups.setdefault((c["space"], float(c["rho"])), []).append(
+                        (c.get("cls", "corpus"), tuple(map(float, c["s1"])), tuple(map(float, c["s2"])), [float(t) for t in c.get("ts", [0.5])]))
+    return groups, dabs
 
 
 def compare(ck, impl, model, script, tag):
@@ -750,8 +790,10 @@ def report_fail(ck, f, script_for=None):
     record = {"engine": "dubins", "space": f["space"], "clause": f["clause"], "input_class": f["input_class"]}
     if "cause" in f:
         record["cause"] = f["cause"]
-    ck.report(record, script=script_for, expected=None, observed=f, engine="dubins")
-    ck.log("property failure [%s/%s/%s]: %s" % (f["space"], f["clause"], f["input_class"], f["what"]))
+    new = ck.report(record, script=script_for, expected=None, observed=f, engine="dubins")
+    if new:
+        ck.log("property failure [%s/%s/%s]: %s" % (f["space"], f["clause"], f["input_class"], f["what"]))
+    return new
 
 
 def mini_script(job, f):
@@ -821,7 +863,7 @@ def run(ck):
             dis.append((job["tag"], job["script"], d, impl, model))
         mids = oracle_dubins(job, impl, c, fl)
         # phase 2: prefix distances (on the implementation's own interpolated poses)
-        step = 1 if not quick else 2
+        step = 1 if (not quick or job["tag"].startswith("corpus")) else 2
         mids = mids[::step]
         s2 = phase2_script(job, mids)
         if len(s2) > 1:
@@ -841,40 +883,32 @@ def run(ck):
         fl = []
         impl, aborts = run_resilient(ck, hbin, job["script"])
         mids = oracle_rs(job, impl, c, fl)
-        mids = mids[::2] if quick else mids
+        mids = mids[::2] if (quick and not job["tag"].startswith("corpus")) else mids
         s2 = rs_phase2(job, mids)
         if len(s2) > 1:
             impl2, ab2 = run_resilient(ck, hbin, s2)
             oracle_rs_prefix(job, mids, impl2, c, fl)
-            diagnose_prefix(ck, hbin, job, [f for f in fl if f["clause"] == "prefix"], True)
+            diagnose_prefix(ck, hbin, job, [f for f in fl if "mid" in f], True)
             aborts = aborts + ab2
         c["rs_ops"] += len(job["script"]) - 1 + len(s2) - 1
         return job, c, fl, [], aborts
 
-    # ---- corpus first (scripts with a `dubins` header go through both sides, `rs` through the real code only)
-    for name, script in corpus():
-        if script[0].startswith("dubins"):
-            impl, aborts = run_resilient(ck, hbin, script)
-            model = model_lines(script)
-            d = compare(ck, impl, model, script, "corpus/" + name)
-            if d is not None:
-                disagreements.append(("corpus/" + name, script, d, impl, model))
-            for k, what in aborts:
-                fails.append(dict(space="Dubins", clause="abort", input_class="corpus", what="%s line %d: %s" % (name, k, what)))
+    # ---- corpus first: it goes through the same pipeline (lock step + oracle) as the generated jobs
+    cgroups, cdabs = corpus()
+    jobs, rsjobs = [], []
+    for (space, rho), prs in sorted(cgroups.items()):
+        if space == "ReedsShepp":
+            rsjobs.append(rs_job(seed, rho, 0, 0, "corpus-rs-rho%g" % rho, pairs=prs))
         else:
-            impl, aborts = run_resilient(ck, hbin, script)
-            for k, what in aborts:
-                fails.append(dict(space="ReedsShepp", clause="abort", input_class="corpus", what="%s line %d: %s" % (name, k, what)))
-        ck.traces_validated += 1
-        ck.count("scripts:corpus")
+            jobs.append(dubins_job(seed, hbin, drv, rho, space == "Dubins-sym", 0, 0, "corpus-%s-rho%g" % (space, rho), None, pairs=prs))
+        ck.count("corpus_cases", len(prs))
 
     rhos = [1.0, 0.25, 3.7, 10.0] if quick else [1.0, 0.25, 0.5, 1.5, 3.7, 10.0, 0.01, 250.0]
-    npairs, nts = (2000, 4) if quick else (12000, 16)
-    jobs = []
+    npairs, nts = (3000, 6) if quick else (12000, 16)
     for rho in rhos:
         for sym in (False, True):
             jobs.append(dubins_job(seed, hbin, drv, rho, sym, npairs, nts, "dub-rho%g-sym%d" % (rho, sym), None))
-    rsjobs = [rs_job(seed, rho, npairs if quick else npairs // 2, nts, "rs-rho%g" % rho) for rho in rhos]
+    rsjobs += [rs_job(seed, rho, npairs if quick else npairs // 2, nts, "rs-rho%g" % rho) for rho in rhos]
     with concurrent.futures.ThreadPoolExecutor(max_workers=12) as ex:
         futs = [ex.submit(do_pair_job, j) for j in jobs] + [ex.submit(do_rs_job, j) for j in rsjobs]
         results = [f.result() for f in futs]
@@ -892,13 +926,17 @@ def run(ck):
         disagreements += dis
         ck.traces_validated += 2
         ck.count("scripts:" + ("rs" if job["hdr"].startswith("rs") else "dubins"))
-        for (cls, s1, s2) in job["pairs"]:
-            ck.case((job["hdr"], s1, s2), s1 != s2)
+        for pr in job["pairs"]:
+            ck.case((job["hdr"], pr[1], pr[2]), pr[1] != pr[2])
         ck.sample({"config": job["hdr"], "first_ops": job["script"][1:3]})
 
     # ---- raw (d, alpha, beta) at the class-table boundaries
     r = core.SplitMix64(seed).fork("dab")
     script, cases = dab_script(r, 6000 if quick else 60000)
+    for cs in cdabs:
+        cases.insert(0, cs)
+        script.insert(1, "dab %s %s %s" % (B(cs[0]), B(cs[1]), B(cs[2])))
+    ck.count("corpus_cases", len(cdabs))
     impl, aborts = run_resilient(ck, hbin, script)
     model = model_lines(script)
     d = compare(ck, impl, model, script, "dab")
@@ -929,8 +967,7 @@ def run(ck):
         seen.add(key)
         job = f.pop("_job", None)
         scr = f.pop("_script", None) or (mini_script(job, f) if job else None)
-        if nrep < 12:
-            report_fail(ck, f, scr)
+        if nrep < 12 and report_fail(ck, f, scr):
             nrep += 1
     for f in fails:
         f.pop("_job", None)
